@@ -112,8 +112,7 @@ impl MultiPeerBackend for XPubSocketBackend {
                 subscriptions: vec![],
                 send_queue: crate::backend::SubscriberQueue::new(send_queue),
             },
-        )
-        .await;
+        );
         #[cfg(feature = "verif-hooks")]
         crate::__verif::yield_point("reg.after_table").await;
         self.fair_queue_inner
@@ -168,46 +167,48 @@ impl SocketSend for XPubSocket {
         }
         let mut dead_peers = Vec::new();
         let mut unflushed = false;
-        // The walk is not a snapshot: when the table shrinks under it (subscribers leaving on
-        // other threads) it resumes at an earlier bucket and meets entries again.
-        let mut served = std::collections::HashSet::new();
-        let mut iter = self.backend.subscribers.begin_async().await;
-        while let Some(mut subscriber) = iter {
-            if !served.insert(subscriber.conn) {
-                iter = subscriber.next_async().await;
-                continue;
+        // The whole walk is one synchronous pass: no task is ever suspended while it holds a bucket
+        // of the table, so every other operation on the table - all of them blocking, none of
+        // them awaited - only ever waits for a thread that is running.
+        let mut fatal = None;
+        let first_frame = message.get(0).unwrap();
+        self.backend.subscribers.retain_sync(|peer_id, subscriber| {
+            if fatal.is_some() {
+                return true;
             }
-            for sub_filter in &subscriber.subscriptions {
-                if sub_filter.len() <= message.get(0).unwrap().len()
-                    && sub_filter.as_slice() == &message.get(0).unwrap()[0..sub_filter.len()]
+            let matches = subscriber.subscriptions.iter().any(|sub_filter| {
+                sub_filter.len() <= first_frame.len()
+                    && sub_filter.as_slice() == &first_frame[0..sub_filter.len()]
+            });
+            if matches {
+                match subscriber
+                    .send_queue
+                    .try_send(Message::Message(message.clone()))
                 {
-                    let res = subscriber
-                        .send_queue
-                        .try_send(Message::Message(message.clone()));
-                    match res {
-                        Ok(flushed) => unflushed |= !flushed,
-                        Err(ZmqError::Codec(CodecError::Io(e))) => {
-                            if e.kind() == ErrorKind::BrokenPipe {
-                                dead_peers.push((subscriber.key().clone(), subscriber.conn));
-                            } else {
-                                log::error!("Error sending message: {:?}", e);
-                            }
-                        }
-                        Err(ZmqError::BufferFull(_)) => {
-                            // Silently drop the message if the queue for a subscriber is full.
-                            // https://rfc.zeromq.org/spec/29/
-                            log::debug!("Queue for subscriber is full");
-                            unflushed = true;
-                        }
-                        Err(e) => {
+                    Ok(flushed) => unflushed |= !flushed,
+                    Err(ZmqError::Codec(CodecError::Io(e))) => {
+                        if e.kind() == ErrorKind::BrokenPipe {
+                            dead_peers.push((peer_id.clone(), subscriber.conn));
+                        } else {
                             log::error!("Error sending message: {:?}", e);
-                            return Err(e);
                         }
                     }
-                    break;
+                    Err(ZmqError::BufferFull(_)) => {
+                        // Silently drop the message if the queue for a subscriber is full.
+                        // https://rfc.zeromq.org/spec/29/
+                        log::debug!("Queue for subscriber is full");
+                        unflushed = true;
+                    }
+                    Err(e) => {
+                        log::error!("Error sending message: {:?}", e);
+                        fatal = Some(e);
+                    }
                 }
             }
-            iter = subscriber.next_async().await;
+            true
+        });
+        if let Some(e) = fatal {
+            return Err(e);
         }
         for (peer, conn) in dead_peers {
             crate::backend::ForgetConn::forget_conn(&*self.backend, &peer, conn);
